@@ -1,6 +1,8 @@
 (* calc_length (model) = denote (specification) for every well-formed length expression. *)
 From Sakura.Model Require Import Base Cursor Length.
 From Sakura.Spec Require Import LenSpec.
+From Sakura.Gen Require Import Consts.
+From Sakura.Proofs Require Import NumeralP.
 From Coq Require Import Lia.
 Open Scope Z_scope.
 
@@ -24,23 +26,46 @@ Proof. intros H. apply digit_ok_range in H. unfold is_digit, dg. lia. Qed.
 Lemma after_num_stop r : after_num_ok r -> stop_ok r.
 Proof. destruct r as [|c r]; simpl; auto. intros [->|[->| ->]]; reflexivity. Qed.
 
-Lemma take_dec_digits ds : forall acc r,
+Lemma numeral_cap_is_code : numeral_cap = NUMERAL_MAX.
+Proof. reflexivity. Qed.
+
+Lemma value_of_horner ds : forall acc, value_of acc ds = horner 10 acc ds.
+Proof. induction ds as [|d ds IH]; intros acc; cbn [value_of horner]; [reflexivity|apply IH]. Qed.
+
+Lemma digits_nonneg ds : forallb digit_ok ds = true -> Forall (fun d => 0 <= d) ds.
+Proof.
+  induction ds as [|d ds IH]; intros H; constructor.
+  - cbn [forallb] in H. apply andb_prop in H. destruct H as [H _]. apply digit_ok_range in H. lia.
+  - cbn [forallb] in H. apply andb_prop in H. destruct H as [_ H]. apply IH. exact H.
+Qed.
+
+Lemma take_dec_digits_sat ds : forall acc r,
   forallb digit_ok ds = true -> stop_ok r ->
-  take_dec acc (map dg ds ++ r) = (value_of acc ds, r).
+  take_dec acc (map dg ds ++ r) = (horner_sat 10 acc ds, r).
 Proof.
   induction ds as [|d ds IH]; intros acc r Hd Hr.
-  - cbn [map app value_of]. destruct r as [|c r]; [reflexivity|].
+  - cbn [map app horner_sat]. destruct r as [|c r]; [reflexivity|].
     cbn [take_dec]. cbn in Hr. rewrite Hr. reflexivity.
   - cbn [forallb] in Hd. apply andb_prop in Hd. destruct Hd as [Hd Hds].
-    cbn [map app take_dec value_of]. rewrite (is_digit_dg d Hd).
+    cbn [map app take_dec horner_sat]. rewrite (is_digit_dg d Hd).
     replace (acc * 10 + (dg d - 48)) with (acc * 10 + d) by (unfold dg; lia).
     apply IH; assumption.
+Qed.
+
+(* the digits denote their value, capped *)
+Lemma take_dec_digits ds r :
+  forallb digit_ok ds = true -> stop_ok r ->
+  take_dec 0 (map dg ds ++ r) = (numeral ds, r).
+Proof.
+  intros Hd Hr. rewrite take_dec_digits_sat by assumption. f_equal.
+  rewrite horner_sat_min; [|lia|apply digits_nonneg; exact Hd|pose proof numeral_max_pos; lia].
+  unfold numeral. rewrite value_of_horner. reflexivity.
 Qed.
 
 Lemma get_int_numeral def (neg : bool) ds r :
   ds <> [] -> forallb digit_ok ds = true -> after_num_ok r ->
   get_int def ((if neg then [45] else []) ++ map dg ds ++ r)
-  = ((if neg then -1 else 1) * value_of 0 ds, r).
+  = ((if neg then -1 else 1) * numeral ds, r).
 Proof.
   intros Hne Hd Hr.
   destruct ds as [|d ds]; [congruence|].
@@ -56,7 +81,7 @@ Proof.
         else (def, s2)
       else if negb (is_numeric s1) then (def, s1)
       else let '(no, s2) := take_dec 0 s1 in (no * (if neg then -1 else 1), s2))
-     = ((if neg then -1 else 1) * value_of 0 (d :: ds), r)).
+     = ((if neg then -1 else 1) * numeral (d :: ds), r)).
   { intros s1 ->.
     assert (Hx : forall k, k = 120 \/ k = 111 -> prefixb [c_0; k] (map dg (d :: ds) ++ r) = false).
     { intros k Hk. cbn [map app prefixb]. unfold c_0.
@@ -74,7 +99,7 @@ Proof.
     assert (Hnum : is_numeric (map dg (d :: ds) ++ r) = true).
     { cbn [map app is_numeric]. apply is_digit_dg; assumption. }
     rewrite Hnum. cbn [negb].
-    rewrite (take_dec_digits (d :: ds) 0 r Hd (after_num_stop r Hr)).
+    rewrite (take_dec_digits (d :: ds) r Hd (after_num_stop r Hr)).
     f_equal. lia. }
   unfold get_int. destruct neg.
   - cbn [app eq_char]. replace (45 =? c_MINUS) with true by reflexivity. cbn [tl].
